@@ -1517,6 +1517,10 @@ impl GrafeoDB {
                 .tx_manager
                 .last_assigned_tx_id()
                 .unwrap_or_else(|| self.tx_manager.begin());
+            // Mark everything logged so far as committed (as `close()` does):
+            // recovery drops records that are not followed by a commit marker
+            // when it meets the checkpoint record.
+            wal.log(&WalRecord::TxCommit { tx_id })?;
             wal.checkpoint(tx_id, epoch)?;
             wal.sync()?;
         }
